@@ -465,11 +465,27 @@ def gen_cdf(rng: random.Random, oos: t.Optional[str] = None, force: t.Optional[t
         cols[0]["kind"], cols[0]["decl"] = "str", "string"
         for r in range(nrows):
             rows[r][0] = enc(gen_str(rng, True) + ("\x00" if r == 0 else ""))
-    if oos == "H_dictOrder":
-        perm = list(range(ncols))
-        while perm == list(range(ncols)):
-            rng.shuffle(perm)
-        case["perm_row"], case["perm"] = rng.randint(1, nrows - 1), perm
+    # how each row is handed over: dict rows list their keys in an order of their own, may miss keys (rows after
+    # the first), and with a typed schema the rows may be a mixture of tuples, lists, dicts and Rows
+    typed = form in ("ddl", "dict", "struct")
+    mixed = typed and not oos and rng.random() < 0.3
+    if container == "dict" or mixed or oos == "H_dictOrder":
+        shapes = []
+        for r in range(len(rows)):
+            cont = rng.choice(["tuple", "list", "dict", "dict", "Row"]) if mixed else container
+            order = list(range(ncols))
+            if cont == "dict":
+                if (r > 0 or form != "none") and (rng.random() < 0.6 or oos == "H_dictOrder"):
+                    rng.shuffle(order)
+                if r > 0 and ncols > 1 and rng.random() < 0.2 and oos != "H_dictOrder":
+                    order.remove(rng.choice(order))
+            shapes.append({"cont": cont, "order": order})
+        if form == "none":
+            shapes[0]["order"] = list(range(ncols))
+        if oos == "H_dictOrder" and all(sh["order"] == list(range(ncols)) for sh in shapes[1:]):
+            shapes[-1]["order"] = list(reversed(range(ncols)))
+        case["shapes"] = shapes
+        case["container"] = shapes[0]["cont"]
     if oos == "H_namesAreFields":
         case["schema_names"] = [n + "_r" for n in names]
     if oos == "H_trimmedNames":
@@ -518,6 +534,163 @@ def gen_lit(rng: random.Random, use: str, oos: t.Optional[str] = None) -> dict:
     return c
 
 
+
+# ------------------------------------------------------------------------------------------------
+# literal lifting at every public entry point that takes a plain Python value where a Column could stand
+# ------------------------------------------------------------------------------------------------
+# Frame: columns c (the value's type) and k (string), rows (v, 'kk') and (w, 'zz').  The column names are
+# deliberately words a careless path would resolve as identifiers ('c', 'k').  Every operation has a Python
+# oracle over these two rows (the literal's VALUE semantics) and, where the entry point also accepts a Column,
+# the same call with the value wrapped in F.lit() must give the same rows.
+
+SQLISH = ["k", "c", "c + 1", "k || k", "(SELECT 'zzz')", "(SELECT 1)", "1=1", "NULL", "null", "TRUE", "*", "c.k", "`k`", '"k"', "'k'", "k -- x", "k /* x */",
+          "lit('x')", "CAST(k AS INT)", "c AND k", "kk", "zz", "x' OR '1'='1", "1", "-1", "1e3", "0x10", "date '2020-01-01'", "$1", "?", ":c", "@k", "k;", "k\n", " c", "c "]
+
+
+def _cmp(op: str) -> t.Callable[[t.Any, t.Any], bool]:
+    import operator
+
+    return {"eq": operator.eq, "ne": operator.ne, "gt": operator.gt, "ge": operator.ge, "lt": operator.lt, "le": operator.le}[op]
+
+
+def _rows2(v: t.Any, w: t.Any) -> t.List[t.Tuple[t.Any, str]]:
+    return [(v, "kk"), (w, "zz")]
+
+
+def _pad(s: str, n: int, pad: str, left: bool) -> str:
+    if len(s) >= n:
+        return s[:n]
+    fill = (pad * n)[: n - len(s)]
+    return fill + s if left else s + fill
+
+
+# name -> (kinds, apply(df, F, x, y, wrap), oracle(v, w, x, y) -> list of result tuples, accepts a Column)
+# x, y are the plain values handed to the entry point (x is v or derived from it); `wrap` is identity or F.lit
+def _entry_ops() -> t.Dict[str, t.Tuple[str, t.Callable, t.Callable, bool]]:
+    ops: t.Dict[str, t.Tuple[str, t.Callable, t.Callable, bool]] = {}
+    for name, sym in [("eq", "__eq__"), ("ne", "__ne__"), ("gt", "__gt__"), ("ge", "__ge__"), ("lt", "__lt__"), ("le", "__le__")]:
+        ops[name] = ("any", (lambda sym: lambda df, F, x, y, wr: df.where(getattr(F.col("c"), sym)(wr(x))))(sym), (lambda name: lambda v, w, x, y: [r for r in _rows2(v, w) if _cmp(name)(r[0], x)])(name), True)
+    ops["between"] = ("any", lambda df, F, x, y, wr: df.where(F.col("c").between(wr(min(x, y)), wr(max(x, y)))), lambda v, w, x, y: [r for r in _rows2(v, w) if min(x, y) <= r[0] <= max(x, y)], True)
+    ops["between_same"] = ("any", lambda df, F, x, y, wr: df.where(F.col("c").between(wr(x), wr(x))), lambda v, w, x, y: [r for r in _rows2(v, w) if r[0] == x], True)
+    ops["isin"] = ("any", lambda df, F, x, y, wr: df.where(F.col("c").isin(wr(x), wr(y))), lambda v, w, x, y: [r for r in _rows2(v, w) if r[0] in (x, y)], False)
+    ops["isin_list"] = ("any", lambda df, F, x, y, wr: df.where(F.col("c").isin([wr(x)])), lambda v, w, x, y: [r for r in _rows2(v, w) if r[0] == x], False)
+    ops["eqNullSafe"] = ("any", lambda df, F, x, y, wr: df.where(F.col("c").eqNullSafe(wr(x))), lambda v, w, x, y: [r for r in _rows2(v, w) if r[0] == x], True)
+    ops["req"] = ("any", lambda df, F, x, y, wr: df.where(wr(x) == F.col("c")), lambda v, w, x, y: [r for r in _rows2(v, w) if r[0] == x], False)
+    ops["startswith"] = ("str", lambda df, F, x, y, wr: df.where(F.col("c").startswith(wr(x))), lambda v, w, x, y: [r for r in _rows2(v, w) if r[0].startswith(x)], True)
+    ops["endswith"] = ("str", lambda df, F, x, y, wr: df.where(F.col("c").endswith(wr(x))), lambda v, w, x, y: [r for r in _rows2(v, w) if r[0].endswith(x)], True)
+    ops["like"] = ("strlike", lambda df, F, x, y, wr: df.where(F.col("c").like(x)), lambda v, w, x, y: [r for r in _rows2(v, w) if r[0] == x], False)
+    ops["when"] = ("any", lambda df, F, x, y, wr: df.select(F.when(F.col("k") == "kk", wr(x)).otherwise(wr(y)).alias("r")), lambda v, w, x, y: [(x,), (y,)], True)
+    ops["when_no_else"] = ("any", lambda df, F, x, y, wr: df.select(F.when(F.col("k") == "zz", wr(x)).alias("r")), lambda v, w, x, y: [(None,), (x,)], True)
+    ops["when_cond_value"] = ("any", lambda df, F, x, y, wr: df.select(F.when(F.col("c") == wr(x), "hit").otherwise("miss").alias("r")), lambda v, w, x, y: [("hit" if v == x else "miss",), ("hit" if w == x else "miss",)], True)
+    ops["fillna"] = ("fill", lambda df, F, x, y, wr: df.select(F.when(F.col("k") == "kk", F.lit(None)).otherwise(F.col("c")).alias("c"), "k").fillna(x, subset=["c"]), lambda v, w, x, y: [(x, "kk"), (w, "zz")], False)
+    ops["fillna_dict"] = ("fill", lambda df, F, x, y, wr: df.select(F.when(F.col("k") == "kk", F.lit(None)).otherwise(F.col("c")).alias("c"), "k").fillna({"c": x}), lambda v, w, x, y: [(x, "kk"), (w, "zz")], False)
+    ops["replace_new"] = ("str", lambda df, F, x, y, wr: df.replace("kk", x, subset=["k"]), lambda v, w, x, y: [(v, x), (w, "zz")], False)
+    ops["replace_old"] = ("fill", lambda df, F, x, y, wr: df.replace(x, y, subset=["c"]), lambda v, w, x, y: [(y if v == x else v, "kk"), (y if w == x else w, "zz")], False)
+    ops["replace_dict"] = ("str", lambda df, F, x, y, wr: df.replace({x: y}, subset=["c"]), lambda v, w, x, y: [(y if v == x else v, "kk"), (y if w == x else w, "zz")], False)
+    ops["concat_ws"] = ("str", lambda df, F, x, y, wr: df.select(F.concat_ws(x, F.col("k"), F.col("k")).alias("r")), lambda v, w, x, y: [("kk" + x + "kk",), ("zz" + x + "zz",)], False)
+    ops["instr"] = ("str1", lambda df, F, x, y, wr: df.select(F.instr(F.col("c"), x).alias("r")), lambda v, w, x, y: [(v.find(x) + 1,), (w.find(x) + 1,)], False)
+    ops["locate"] = ("str1", lambda df, F, x, y, wr: df.select(F.locate(x, F.col("c")).alias("r")), lambda v, w, x, y: [(v.find(x) + 1,), (w.find(x) + 1,)], False)
+    ops["lpad"] = ("str1", lambda df, F, x, y, wr: df.select(F.lpad(F.col("k"), 5, x).alias("r")), lambda v, w, x, y: [(_pad("kk", 5, x, True),), (_pad("zz", 5, x, True),)], False)
+    ops["rpad"] = ("str1", lambda df, F, x, y, wr: df.select(F.rpad(F.col("k"), 5, x).alias("r")), lambda v, w, x, y: [(_pad("kk", 5, x, False),), (_pad("zz", 5, x, False),)], False)
+    ops["array_contains"] = ("any", lambda df, F, x, y, wr: df.select(F.array_contains(F.array(F.col("c"), F.col("c")), wr(x)).alias("r")), lambda v, w, x, y: [(v == x,), (w == x,)], True)
+    ops["lit_concat"] = ("str", lambda df, F, x, y, wr: df.select(F.concat(F.col("k"), F.lit(x)).alias("r")), lambda v, w, x, y: [("kk" + x,), ("zz" + x,)], False)
+    ops["withColumn_value"] = ("any", lambda df, F, x, y, wr: df.withColumn("n", F.lit(x)).select("n", "k"), lambda v, w, x, y: [(x, "kk"), (x, "zz")], False)
+    return ops
+
+
+ENTRY_OPS: t.Dict[str, t.Tuple[str, t.Callable, t.Callable, bool]] = {}
+
+
+def entry_ops() -> t.Dict[str, t.Tuple[str, t.Callable, t.Callable, bool]]:
+    if not ENTRY_OPS:
+        ENTRY_OPS.update(_entry_ops())
+    return ENTRY_OPS
+
+
+ENTRY_KINDS = ["str", "str", "str", "int", "float", "date", "ts", "bool"]
+
+
+def gen_entry_str(rng: random.Random, nul_ok: bool = False) -> str:
+    r = rng.random()
+    if r < 0.45:
+        return rng.choice(SQLISH)
+    if r < 0.6:
+        return rng.choice(SQLISH) + rng.choice(["'", "\\", " --", ";", "/*", "\n", "é"])
+    return gen_str(rng, nul_ok)
+
+
+def gen_entry(rng: random.Random, op: t.Optional[str] = None, oos: t.Optional[str] = None) -> t.Optional[dict]:
+    ops = entry_ops()
+    op = op or rng.choice(sorted(ops))
+    need = ops[op][0]
+    kind = "str" if need in ("str", "strlike", "str1") or oos == "H_noNul" else rng.choice(ENTRY_KINDS)
+    if need == "fill" and kind not in ("str", "int", "float"):
+        kind = "str"
+    for _ in range(30):
+        if kind == "str":
+            v, w = gen_entry_str(rng, oos == "H_noNul"), gen_entry_str(rng)
+            if oos == "H_noNul" and "\x00" not in v:
+                v += "\x00"
+        else:
+            v, w = gen_val(rng, kind), gen_val(rng, kind)
+        if kind == "float" and (math.isnan(v) or math.isnan(w)):
+            continue
+        if kind == "str" and len(v) > 300:
+            v = v[:300]
+        if kind == "str" and len(w) > 300:
+            w = w[:300]
+        if same(v, w):
+            continue
+        x, y = (v, w)
+        if rng.random() < 0.25 and kind == "str":
+            x = v[: max(1, len(v) // 2)] if need in ("str", "str1") and op in ("startswith", "instr", "locate") else v
+        if need == "strlike" and any(ch in x for ch in "%_\\"):
+            continue
+        if need == "str1" and not x:
+            continue
+        if op in ("replace_old", "replace_dict", "fillna", "fillna_dict") and kind == "str" and (x == "" or y == ""):
+            continue
+        return {"use": "entry", "op": op, "kind": kind, "v": enc(v), "w": enc(w), "x": enc(x), "y": enc(y)}
+    return None
+
+
+Y_USED = {"between", "isin", "when", "replace_old", "replace_dict"}
+
+
+def _entry_uses(op: str, is_y: bool) -> bool:
+    """is the (second) value part of the statement for this operation?"""
+    return (not is_y) or op in Y_USED
+
+
+def run_entry(c: dict, out: dict) -> None:
+    st = S()
+    sess, F = st["sess"], st["F"]
+    v, w, x, y = dec(c["v"]), dec(c["w"]), dec(c["x"]), dec(c["y"])
+    _, apply, _, colok = entry_ops()[c["op"]]
+    df = sess.createDataFrame([(v, "kk"), (w, "zz")], ["c", "k"])
+    out["stage"] = "plain"
+    rows = apply(df, F, x, y, lambda z: z).collect()
+    out["sql"] = st["log"][-1]
+    out["rows"] = [tuple(r) for r in rows]
+    if colok:
+        out["stage"] = "lit"
+        out["rows_lit"] = [tuple(r) for r in apply(df, F, x, y, F.lit).collect()]
+    out["stage"] = "done"
+
+
+def bag_same(a: t.List[tuple], b: t.List[tuple]) -> bool:
+    if len(a) != len(b):
+        return False
+    rest = list(b)
+    for ra in a:
+        for i, rb in enumerate(rest):
+            if len(ra) == len(rb) and all(same(p, spec_value(q)) for p, q in zip(ra, rb)):
+                del rest[i]
+                break
+        else:
+            return False
+    return True
+
 # ------------------------------------------------------------------------------------------------
 # running one case on the real code
 # ------------------------------------------------------------------------------------------------
@@ -545,20 +718,43 @@ def _type_obj(text: str) -> t.Any:
     raise ValueError(text)
 
 
+def row_shapes(c: dict) -> t.List[dict]:
+    """per data row: the container it is given in and, for dict rows, the keys in insertion order (a column
+    index that is absent is a missing key)"""
+    n = len(c["cols"])
+    if "shapes" in c:
+        return c["shapes"]
+    out = []
+    for ri in range(len(c["rows"])):
+        order = list(c["perm"]) if c.get("perm_row") == ri and "perm" in c else list(range(n))
+        out.append({"cont": c["container"], "order": order})
+    return out
+
+
+def effective_rows(c: dict) -> t.List[t.List[t.Any]]:
+    """the values the rows really carry (a key missing from a dict row is a NULL)"""
+    out = []
+    for row, sh in zip(c["rows"], row_shapes(c)):
+        vals = [dec(x) for x in row]
+        if sh["cont"] == "dict":
+            vals = [v if i in sh["order"] else None for i, v in enumerate(vals)]
+        out.append(vals)
+    return out
+
+
 def build_cdf_args(c: dict) -> t.Tuple[t.Any, t.Any]:
     st = S()
     Row, T = st["Row"], st["T"]
     names = [x["name"] for x in c["cols"]]
     data = []
-    for ri, row in enumerate(c["rows"]):
+    for row, sh in zip(c["rows"], row_shapes(c)):
         vals = [dec(x) for x in row]
-        if c["container"] == "tuple":
+        if sh["cont"] == "tuple":
             data.append(tuple(vals))
-        elif c["container"] == "list":
+        elif sh["cont"] == "list":
             data.append(list(vals))
-        elif c["container"] == "dict":
-            order = c["perm"] if c.get("perm_row") == ri else range(len(names))
-            data.append({names[i]: vals[i] for i in order})
+        elif sh["cont"] == "dict":
+            data.append({names[i]: vals[i] for i in sh["order"]})
         else:
             data.append(Row(**dict(zip(names, vals))))
     f = c["form"]
@@ -623,6 +819,8 @@ def run_impl(c: dict) -> dict:
             sch = df.schema
             out["schema"] = [[f.name, f.dataType.simpleString()] for f in sch]
             out["stage"] = "done"
+        elif c["use"] == "entry":
+            run_entry(c, out)
         else:
             v = dec(c["v"])
             e = F.lit(v).column_expression
@@ -662,8 +860,8 @@ MAX_SQL = 40000
 
 def case_values(c: dict) -> t.List[t.Any]:
     if c["use"] == "cdf":
-        return [dec(x) for row in c["rows"] for x in row]
-    return [dec(c["v"])] + ([dec(c["w"])] if "w" in c else [])
+        return [x for row in effective_rows(c) for x in row]
+    return [dec(c["v"])] + ([dec(c["w"])] if "w" in c else []) + ([dec(c["x"]), dec(c["y"])] if c.get("use") == "entry" else [])
 
 
 def lean_req(i: int, c: dict, impl: dict) -> dict:
@@ -683,6 +881,7 @@ def lean_req(i: int, c: dict, impl: dict) -> dict:
         "nans": [],
         "schema": None,
         "dict": None,
+        "dicts": [],
     }
     try:
         return _lean_req_fill(req, c, vals)
@@ -692,7 +891,7 @@ def lean_req(i: int, c: dict, impl: dict) -> dict:
 
 def _lean_req_fill(req: dict, c: dict, vals: t.List[t.Any]) -> dict:
     if c["use"] == "cdf":
-        first = [dec(x) for x in c["rows"][0]]
+        first = effective_rows(c)[0]
         req["kinds"] = [pykind(v) for v in first]
         names = [x["name"] for x in c["cols"]]
         shape = {"positional": {"n": len(names)}} if c["container"] in ("tuple", "list") else {"keyed": {"keys": names}}
@@ -708,9 +907,8 @@ def _lean_req_fill(req: dict, c: dict, vals: t.List[t.Any]) -> dict:
         else:
             form = {"structType": {"fields": [[x["name"], x["decl"]] for x in c["cols"]]}}
         req["schema"] = {"form": form, "shape": shape}
-        if c["container"] == "dict" and "perm" in c:
-            req["dict"] = {"cols": names, "keys": [names[j] for j in c["perm"]]}
-        rows_in = [[dec(x) for x in row] for row in c["rows"]]
+        req["dicts"] = [{"cols": names, "keys": [names[j] for j in sh["order"]]} for sh in row_shapes(c) if sh["cont"] == "dict" and sh["order"] != list(range(len(names)))]
+        rows_in = effective_rows(c)
         req["nans"] = [group_type(r[j] for r in rows_in) == "nan" for j, col in enumerate(c["cols"]) if col["kind"] == "float"]
     else:
         v = vals[0]
@@ -757,28 +955,38 @@ def judge(c: dict, impl: dict, L: dict) -> dict:
         names = [x["name"] for x in c["cols"]]
         sch = L["schema"]
         scope += sch["violated"]
-        if L["dict"]:
-            scope += L["dict"]["violated"]
+        for dct in L["dicts"]:
+            scope += dct["violated"]
         m_names = sch["derived"]
         spec_names = sch["spec"]
-        rows_in = [[dec(x) for x in row] for row in c["rows"]]
+        rows_in = effective_rows(c)
         nan_is_null = L["kinds"][-1]["operand"] == "null"
         # model rows: dict rows may be laid out positionally; nested NaNs go through `_lit`
         m_rows = [[nested_model(x, nan_is_null) for x in r] for r in rows_in]
-        if L["dict"]:
-            ri = c["perm_row"]
-            in_key_order = [rows_in[ri][j] for j in c["perm"]]
-            m_rows[ri] = [None if j is None else in_key_order[j] for j in L["dict"]["model"]]
+        values_len_err = False
+        dit = iter(L["dicts"])
+        for ri, sh in enumerate(row_shapes(c)):
+            if sh["cont"] == "dict" and sh["order"] != list(range(len(names))):
+                dct = next(dit)
+                in_key_order = [m_rows[ri][j] for j in sh["order"]]
+                m_rows[ri] = [None if j is None else in_key_order[j] for j in dct["model"]]
+                if len(m_rows[ri]) != len(names):
+                    values_len_err = True  # positional layout of a dict with a missing key: a shorter VALUES tuple
         if any(not x["ok"] for x in L["nans"]):
             scope.append("H_nanWidth")
         exp_toks = [tok for r in m_rows for v in r for tok in str_tokens(v)]
         fcols = [j for j, col in enumerate(c["cols"]) if col["kind"] == "float"]
         for j, nn in zip(fcols, L["nans"]):
+            if values_len_err:
+                break
             if nn["bits"] == 24 and group_type(r[j] for r in m_rows) == "nan":
                 for r in m_rows:
                     r[j] = f32(r[j])
         parser_err = "H_noNul" in scope
-        if m_names is None:
+        if values_len_err and m_names is not None and not parser_err:
+            if "err" not in impl:
+                model_notes.append("model: a dict row with a missing key laid out positionally gives VALUES tuples of different lengths; implementation: no error")
+        elif m_names is None:
             # the model says createDataFrame raises before any statement is built
             if "err" not in impl or impl.get("stage") != "createDataFrame":
                 model_notes.append(f"model: createDataFrame raises (names underivable); implementation: {impl.get('err', 'no error')} at {impl.get('stage')}")
@@ -842,6 +1050,30 @@ def judge(c: dict, impl: dict, L: dict) -> dict:
                     want = _type_obj(col["decl"]).simpleString()
                     if ty != want:
                         spec_notes.append(f"schema type of {n}: {ty}, declared/inferred {want}")
+    elif c["use"] == "entry":
+        v, w, x, y = dec(c["v"]), dec(c["w"]), dec(c["x"]), dec(c["y"])
+        want = entry_ops()[c["op"]][2](v, w, x, y)
+        if "H_noNul" in scope:
+            if "err" not in impl or "unterminated" not in impl["err"]:
+                model_notes.append(f"model: scanner ends inside a literal; implementation: {impl.get('err', 'no error')}")
+            spec_notes.append(f"raises {impl.get('err')}")
+        elif "err" in impl:
+            model_notes.append(f"model: no error; implementation {impl['err']} at {impl.get('stage')}")
+            spec_notes.append(f"raises {impl['err']}")
+        else:
+            if not bag_same(impl["rows"], want):
+                model_notes.append(f"rows {show(impl['rows'])} vs the value semantics {show(want)}")
+                spec_notes.append(f"{c['op']} with the plain value {show(x)} gives {show(impl['rows'])}; treating it as a literal gives {show(want)}")
+            if "rows_lit" in impl and not bag_same(impl["rows"], impl["rows_lit"]):
+                spec_notes.append(f"{c['op']}({show(x)}) gives {show(impl['rows'])} but {c['op']}(lit({show(x)})) gives {show(impl['rows_lit'])}")
+                model_notes.append("plain value and lit(value) differ")
+            # every str handed in must stand in the executed statement as ONE string-literal token (Lean scanner)
+            if lexed:
+                for z, is_y in ((x, False), (y, True)):
+                    if isinstance(z, str) and _entry_uses(c["op"], is_y) and sql_strs.count(z) < [v, w].count(z) + 1:
+                        model_notes.append(f"the value {show(z)} is not a string-literal token of the executed statement (Lean lex)")
+                if L["unterminated"]:
+                    model_notes.append("Lean lex reports an unterminated token in a statement DuckDB executed")
     else:
         v = vals[0]
         k = L["kinds"][0]
@@ -942,6 +1174,8 @@ def show_case(c: dict) -> str:
         except Exception as e:  # noqa
             return f"<unbuildable: {e}>"
     v = dec(c["v"])
+    if c["use"] == "entry":
+        return f"createDataFrame([({show(v)}, 'kk'), ({show(dec(c['w']))}, 'zz')], ['c', 'k']) . {c['op']} with plain values x={show(dec(c['x']))}, y={show(dec(c['y']))}"
     if c["use"] == "lit_select":
         return f"df.select(lit({show(v)}))"
     if c["use"] == "lit_where":
@@ -984,6 +1218,13 @@ def valid(c: dict) -> bool:
         return True
     if not c["rows"] or not c["cols"]:
         return False
+    if "shapes" in c:
+        sh0 = c["shapes"][0]
+        n = len(c["cols"])
+        if sorted(sh0["order"]) != list(range(n)):
+            return False
+        if c["form"] in ("none", "names") and (sh0["order"] != list(range(n)) or len({sh["cont"] in ("tuple", "list") for sh in c["shapes"]}) > 1):
+            return False
     return all(x["t"] != "none" for x in c["rows"][0])
 
 
@@ -995,9 +1236,18 @@ def shrink(c: dict, failing: t.Callable[[dict], bool], budget: int = 60) -> dict
         cands: t.List[dict] = []
         if best["use"] == "cdf":
             if len(best["rows"]) > 1 and "perm_row" not in best:
-                cands += [dict(best, rows=best["rows"][:i] + best["rows"][i + 1 :]) for i in range(len(best["rows"]))]
+                for i in range(len(best["rows"])):
+                    cand = dict(best, rows=best["rows"][:i] + best["rows"][i + 1 :])
+                    if "shapes" in best:
+                        cand["shapes"] = best["shapes"][:i] + best["shapes"][i + 1 :]
+                        cand["container"] = cand["shapes"][0]["cont"]
+                    cands.append(cand)
             if len(best["cols"]) > 1 and "perm" not in best and "schema_names" not in best:
-                cands += [dict(best, cols=best["cols"][:i] + best["cols"][i + 1 :], rows=[r[:i] + r[i + 1 :] for r in best["rows"]]) for i in range(len(best["cols"]))]
+                for i in range(len(best["cols"])):
+                    cand = dict(best, cols=best["cols"][:i] + best["cols"][i + 1 :], rows=[r[:i] + r[i + 1 :] for r in best["rows"]])
+                    if "shapes" in best:
+                        cand["shapes"] = [dict(sh, order=[j - (j > i) for j in sh["order"] if j != i]) for sh in best["shapes"]]
+                    cands.append(cand)
             for ri, row in enumerate(best["rows"]):
                 for ci, x in enumerate(row):
                     if x["t"] == "str" and len(x["v"]) > 1:
@@ -1005,6 +1255,8 @@ def shrink(c: dict, failing: t.Callable[[dict], bool], budget: int = 60) -> dict
                             rows = [list(r) for r in best["rows"]]
                             rows[ri][ci] = {"t": "str", "v": piece}
                             cands.append(dict(best, rows=rows))
+        elif best["use"] == "entry":
+            pass
         else:
             x = best["v"]
             if x["t"] == "str" and len(x["v"]) > 1:
@@ -1076,6 +1328,23 @@ def cases_for(ctx: Ctx) -> t.List[dict]:
         c = gen_lit(rng, rng.choice(["lit_select", "lit_select", "lit_where", "operand_where", "isin_where"]))
         c["origin"] = "random"
         cases.append(c)
+    # literal lifting: every entry point that takes a plain value, with strings that look like SQL
+    for op in sorted(entry_ops()):
+        for _ in range(4 if ctx.thorough else 2):
+            c = gen_entry(rng, op)
+            if c:
+                c["origin"] = "entry-sweep"
+                cases.append(c)
+    for _ in range(600 if ctx.thorough else 70):
+        c = gen_entry(rng)
+        if c:
+            c["origin"] = "entry-random"
+            cases.append(c)
+    for _ in range(2):
+        c = gen_entry(rng, oos="H_noNul")
+        if c:
+            c["origin"] = "out-of-scope:H_noNul"
+            cases.append(c)
     # inputs outside the scope hypotheses (each must be classified, never silently skipped)
     for h in OOS:
         for _ in range(12 if ctx.thorough else 3):
@@ -1121,7 +1390,7 @@ def py_risky(c: dict) -> bool:
         if isinstance(x, float) and math.isinf(x):
             return True
     if c["use"] == "cdf":
-        if "perm" in c or "schema_names" in c or any(col["name"].strip() != col["name"] for col in c["cols"]):
+        if "schema_names" in c or any(col["name"].strip() != col["name"] for col in c["cols"]):
             return True
         if c["form"] == "ddl" and any(col["kind"] in STRUCTY for col in c["cols"]):
             return True
@@ -1152,7 +1421,7 @@ def spec_notes_only(c: dict, impl: dict) -> t.List[str]:
         want = names if not (c["form"] == "none" and c["container"] in ("tuple", "list")) else [f"_{i + 1}" for i in range(len(names))]
         if impl["names"] != want:
             notes.append(f"df.columns {impl['names']} != {want}")
-        rows_in = [[dec(x) for x in row] for row in c["rows"]]
+        rows_in = effective_rows(c)
         if len(impl["rows"]) != len(rows_in):
             notes.append(f"{len(impl['rows'])} rows back, {len(rows_in)} in")
         else:
@@ -1231,10 +1500,14 @@ def run(ctx: Ctx) -> None:
     model_mismatch = [r for r in res if r["model_notes"]]
     spec_mismatch = [r for r in res if r["spec_notes"]]
     new_viol = []
+    # a KNOWN-FINDING line is printed for a hypothesis only when a failure is attributable to it: it is the only
+    # violated hypothesis of some failing case, its recorded witness fails (below), or none of a failing case's
+    # violated hypotheses is attributable on its own
+    explained = [r for r in spec_mismatch if r["scope"] and all(h in known for h in r["scope"]) and not r["model_notes"]]
+    alone = {r["scope"][0] for r in explained if len(r["scope"]) == 1}
     for r in spec_mismatch:
-        sc = r["scope"]
-        if sc and all(h in known for h in sc) and not r["model_notes"]:
-            for h in sc:
+        if r in explained:
+            for h in [h for h in r["scope"] if h in alone] or r["scope"]:
                 vlib.report_known(ctx, known[h], known[h]["summary"])
         else:
             new_viol.append(r)
